@@ -1,4 +1,4 @@
-import PdshVerif.Opt.RefineLemmas
+import PdshVerif.Opt.WcollStrings
 
 /-! the reader refines `Opt/WcollSpec.lean` on well-formed files whose lines fit the buffer -/
 namespace PdshVerif.Opt.Wcoll
